@@ -139,6 +139,48 @@ def rules_rule(ctx, prefix):
                     names.add(x["v"])
     if names is None:
         return [ob("%s.rules/anchor" % prefix, False, ctx.where(f), "rule-list table (contain_rule_list) not found")]
+    # the table is consulted with the at-rule's own name
+    scrut = None
+    for n in sir.walk(f.body):
+        if n.get("k") == "local" and n["pat"].get("name") == "contain_rule_list" and n.get("init") is not None:
+            for x in sir.walk(n["init"]):
+                if x.get("k") == "match":
+                    scrut = x["e"]
+                    break
+                if x.get("k") == "mac" and x.get("name") == "matches" and x.get("e") is not None:
+                    scrut = x["e"]
+                    break
+    oks = False
+    ds = "table lookup not found"
+    if scrut is not None:
+        e = sir.strip_ref(scrut)
+        chain = []
+        while True:
+            if e.get("k") == "mcall" and not e["args"]:
+                chain.append(e["m"])
+                e = sir.strip_ref(e["recv"])
+            elif e.get("k") == "unary" and e.get("op") == "*":
+                e = sir.strip_ref(e["e"])
+            else:
+                break
+        base_ok = e.get("k") == "path" and len(e["segs"]) == 1
+        bound = False
+        if base_ok:
+            nm = e["segs"][0]
+            for n in sir.walk(f.body):
+                if n.get("k") == "local" and n["pat"].get("name") == nm and n.get("init") is not None and sir.expr_str(sir.strip_ref(n["init"])).lstrip("*&") == nm:
+                    bound = True
+                if n.get("k") in ("if", "arm"):
+                    pat = n["cond"]["pat"] if n.get("k") == "if" and n["cond"].get("k") == "let" else (n.get("pat") if n.get("k") == "arm" else None)
+                    if pat is not None and "AtKeyword" in sir.pat_str(pat) and any(b == nm for b, _p in sir.pat_bindings(pat)):
+                        bound = True
+        oks = base_ok and bound and all(m in ("as_ref", "as_str", "to_ascii_lowercase", "to_lowercase", "deref") for m in chain)
+        ds = "the table is looked up with `%s`, the at-keyword's name itself: %s" % (sir.expr_str(scrut), oks)
+    obs.append(ob("%s.rules/lookup-key" % prefix, oks, ctx.where(f), ds, witness=None if oks else "a transformed key (`starting-style` cut to `style`) silently stops matching"))
+    for w in ref.get("declaration_block_at_rules", []):
+        if w in names:
+            obs.append(ob("%s.rules/not-a-rule-list/@%s" % (prefix, w), False, ctx.where(f), "@%s holds declarations, not style rules; parsing its block as a rule list treats `prop: value` as a selector (no rpx conversion, spacing rules of selectors)" % w,
+                          witness="@%s{margin:20rpx} keeps `rpx`" % w))
     for w in ref["rule_list_at_rules"]:
         obs.append(ob("%s.rules/@%s" % (prefix, w), w in names, ctx.where(f), "@%s %s parsed as a list of nested rules" % (w, "is" if w in names else "is NOT") + ("" if w in names else ": its block goes through the declaration-value routine (descendant whitespace dropped, classes not prefixed, :host not moved)"),
                       witness=None if w in names else "@%s x{.c .d{}} is emitted as @%s x{.c.d{}}" % (w, w)))
@@ -453,7 +495,15 @@ def rpx_rules(ctx, prefix):
     return obs
 
 
-def int_rule(ctx, prefix):
+def _conj(c):
+    if c.get("k") == "binary" and c.get("op") == "&&":
+        return _conj(c["l"]) + _conj(c["r"])
+    if c.get("k") == "paren":
+        return _conj(c["e"])
+    return [c]
+
+
+def int_rule(ctx, prefix, writer_only=False):
     ob = ctx.ob
     at = [f for f in ctx.sc.fns if f.name == "append_token" and f.base == "StyleSheetOutput" and f.body]
     if not at:
@@ -474,6 +524,64 @@ def int_rule(ctx, prefix):
                     for fl in sub["fields"]:
                         if fl["name"] == "int_value" and fl["pat"].get("k") == "p_ts" and fl["pat"]["segs"][-1] == "Some":
                             handled.add(sub["segs"][-1])
+    # how the handled kinds are written: digits from the bound integer, `+` iff has_sign and the integer is not negative, `-0` kept
+    for n in sir.walk(f.body):
+        if n.get("k") != "arm":
+            continue
+        for sub in sir.walk(n["pat"]):
+            if not (sub.get("k") == "p_struct" and sub["segs"][-1] in ("Number", "Dimension", "Percentage")):
+                continue
+            iv = [fl for fl in sub["fields"] if fl["name"] == "int_value" and fl["pat"].get("k") == "p_ts" and fl["pat"]["segs"][-1] == "Some"]
+            if not iv:
+                continue
+            kind = sub["segs"][-1]
+            inner = iv[0]["pat"]["elems"][0]
+            vname = inner.get("name") if inner.get("k") == "p_ident" else None
+            body = n["body"]
+            probs = []
+            if not vname:
+                probs.append("the integer value is matched but not bound, so it cannot be what is written")
+            else:
+                digit_writes = []
+                for x in sir.walk(body):
+                    wf = sir.write_fmt_call(x)
+                    if wf:
+                        holes = [p_[1] for p_ in wf[1] if p_[0] != "lit" and isinstance(p_[1], dict)]
+                        for h in holes:
+                            digit_writes.append(sir.expr_str(sir.strip_ref(h)).lstrip("*"))
+                if vname not in digit_writes:
+                    probs.append("digits are written from `%s`, not from the integer `%s`" % (digit_writes, vname))
+                if any(d != vname for d in digit_writes):
+                    probs.append("something other than the integer is formatted: %s" % [d for d in digit_writes if d != vname])
+                plus = [x for x in sir.walk(body) if x.get("k") == "if" and any(y.get("k") == "mcall" and y["m"] in ("push", "push_str") and y["args"] and sir.strip_ref(y["args"][0]).get("v") == "+" for y in sir.walk(x["then"]))]
+                if len(plus) != 1:
+                    probs.append("%d places write an explicit `+`" % len(plus))
+                else:
+                    cj = [sir.expr_str(c).replace(" ", "") for c in _conj(plus[0]["cond"])]
+                    okc = "*has_sign" in cj and any(c in ("*%s>=0" % vname, "*%s>-1" % vname, "!%s.is_negative()" % vname, "!(*%s).is_negative()" % vname) for c in cj) and len(cj) == 2
+                    if not okc:
+                        probs.append("`+` is written under `%s` (expected: has_sign and the integer is not negative, so that `+0` keeps its sign)" % "&&".join(cj))
+                nz = [x for x in sir.walk(body) if x.get("k") == "if" and any(y.get("k") == "mcall" and y["m"] == "push_str" and y["args"] and sir.strip_ref(y["args"][0]).get("v") == "-0" for y in sir.walk(x["then"]))]
+                if len(nz) != 1 or sorted(sir.expr_str(c).replace(" ", "") for c in _conj(nz[0]["cond"])) != sorted(["*%s==0" % vname, "value.is_sign_negative()"]):
+                    probs.append("negative zero is not written as `-0` under `%s == 0 && value.is_sign_negative()`" % vname)
+            obs.append(ob("%s.int/%s/writer" % (prefix, kind), not probs, ctx.where(f), "; ".join(probs) if probs else "digits come from the integer `%s`; `+` iff has_sign and %s >= 0; `-0` kept" % (vname, vname),
+                          witness=None if not probs else "z-index:16777217 / :nth-child(2n +0) change their value"))
+    # every other token kind is serialised by cssparser itself
+    for n in sir.walk(f.body):
+        if n.get("k") == "match" and any(x.get("k") == "mcall" and x["m"] == "to_css" for x in sir.walk(n)):
+            for a in n["arms"]:
+                kinds = [sub["segs"][-1] for sub in sir.walk(a["pat"]) if sub.get("k") in ("p_struct", "p_ts", "p_path") and len(sub.get("segs", [])) >= 2 and sub["segs"][-2] == "Token"]
+                uses_to_css = any(x.get("k") == "mcall" and x["m"] == "to_css" for x in sir.walk(a["body"]))
+                for kd in kinds:
+                    if kd in ("Number", "Dimension", "Percentage"):
+                        continue
+                    obs.append(ob("%s.ser/%s" % (prefix, kd), uses_to_css, ctx.where(f), "%s tokens are %s" % (kd, "serialised by cssparser (to_css)" if uses_to_css else "serialised by hand instead of by cssparser's to_css: escaping of quotes, backslashes, newlines and non-printables is no longer the tokenizer's inverse"),
+                              witness=None if uses_to_css else "a string or identifier containing `\\` changes its value"))
+            wild = [a for a in n["arms"] if a["pat"].get("k") == "p_wild"]
+            okw = len(wild) == 1 and any(x.get("k") == "mcall" and x["m"] == "to_css" for x in sir.walk(wild[0]["body"]))
+            obs.append(ob("%s.ser/default" % prefix, okw, ctx.where(f), "all remaining token kinds go through to_css: %s" % okw))
+    if writer_only:
+        return obs
     for kind, wit in (("Number", "z-index:2147483647 is emitted as 2147480000"), ("Dimension", "width:16777217px is emitted as 16777200px"), ("Percentage", "16777217% is emitted as 16777200%")):
         ok = kind in handled
         obs.append(ob("%s.int/%s" % (prefix, kind), ok, ctx.where(f),
@@ -510,8 +618,11 @@ def host_rules(ctx, prefix):
         pop = [i for i, n in enumerate(nodes) if n.get("k") == "mcall" and n["m"] == "pop" and "cur_at_rule_stacks" in sir.expr_str(n["recv"])]
         call = [i for i, n in enumerate(nodes) if n.get("k") == "call" and sir.expr_str(n["f"]) == "f"]
         early = [n for n in nodes if n.get("k") in ("return", "try")]
-        ok = len(push) == 1 and len(pop) == 1 and call and push[0] < call[0] < pop[0] and not early
-        obs.append(ob("%s.pair/at-rule-stack" % prefix, bool(ok), ctx.where(g), "at-rule prelude pushed before and popped after the nested rule list on every path: %s" % bool(ok)))
+        top = [st.get("e") if st.get("k") == "expr" else st.get("init") for st in g.body["stmts"]]
+        top_push = [e for e in top if e is not None and e.get("k") == "mcall" and e["m"] == "push" and "cur_at_rule_stacks" in sir.expr_str(e["recv"])]
+        top_pop = [e for e in top if e is not None and e.get("k") == "mcall" and e["m"] == "pop" and "cur_at_rule_stacks" in sir.expr_str(e["recv"])]
+        ok = len(push) == 1 and len(pop) == 1 and call and push[0] < call[0] < pop[0] and not early and len(top_push) == 1 and len(top_pop) == 1
+        obs.append(ob("%s.pair/at-rule-stack" % prefix, bool(ok), ctx.where(g), "at-rule prelude pushed (unconditionally) before and popped (unconditionally) after the nested rule list: %s" % bool(ok)))
     # who touches the two outputs
     owners = {"normal_output": set(), "low_priority_output": set(), "using_low_priority": set(), "cur_at_rule_stacks": set()}
     for b in ctx.mir.bodies:
@@ -751,6 +862,33 @@ def import_rules(ctx, prefix):
     ok = any(c == 'at_keyword=="import"&&ss.options.import_sign.is_some()' for c in cond)
     obs.append(ob("%s.passthrough" % prefix, ok, where, "@import is rewritten only when an import sign is configured: %s" % cond))
     return obs
+
+
+def step_rules(ctx, prefix):
+    """StepParser::next_including_whitespace returns every token except comments, and skipping a comment consumes nothing else"""
+    ob = ctx.ob
+    sc = ctx.sc
+    g = [f for f in sc.fns if f.base == "StepParser" and f.name == "next_including_whitespace" and f.body]
+    if not g:
+        return [ob("%s.step/anchor" % prefix, False, "step.rs", "StepParser::next_including_whitespace not found")]
+    f = g[0]
+    cm = []
+    for x in sir.walk(f.body):
+        if x.get("k") == "if" and x["cond"].get("k") == "let" and "Token::Comment" in sir.pat_str(x["cond"]["pat"]):
+            cm.append(x["then"])
+        if x.get("k") == "match":
+            for a in x["arms"]:
+                if "Token::Comment" in sir.pat_str(a["pat"]):
+                    cm.append(a["body"])
+    probs = []
+    if len(cm) != 1:
+        probs.append("%d comment branches found" % len(cm))
+    else:
+        calls = [sir.expr_str(y)[:60] for y in sir.walk(cm[0]) if y.get("k") in ("mcall", "call")]
+        if calls:
+            probs.append("the comment branch does more than skip the comment: %s" % calls)
+    return [ob("%s.step/comment-only" % prefix, not probs, ctx.where(f), "; ".join(probs) if probs else "a comment is dropped on its own: the whitespace after it is still delivered to the caller",
+               witness=None if not probs else "`.a/* c */ .b` loses its descendant combinator")]
 
 
 # ------------------------------------------------------------------ C19
